@@ -126,7 +126,8 @@ Fixpoint has_dup (l : list nat) : bool :=
   end.
 
 (* NewMemory, lines 764-780.  Machine.ParseStates returns
-     - slicesUniq(input) when a KNOWN name occurs twice - unknown names stay;
+     - when a KNOWN name occurs twice: the unique known names in input order
+       (slicesFilter(slicesUniq(input), known));
      - otherwise the known names in Go map order: [order] is that order (the
        observed one); it is used only if it is a permutation of the known names.
    None = NewMemory returns ErrStateMissing ("no states to track"). *)
@@ -136,7 +137,7 @@ Definition requested_tracked (w : rawcfg) : list nat :=
 
 Definition parse_states (nstates : nat) (order : list nat) (l : list nat) : list nat :=
   let known := filter (fun s => s <? nstates) l in
-  if has_dup known then uniq l
+  if has_dup known then filter (fun s => s <? nstates) (uniq l)
   else if perm_eqb order known then order else known.
 
 Definition new_memory (nstates : nat) (order : list nat) (w : rawcfg) : option hcfg :=
